@@ -3598,6 +3598,15 @@ typename SPxSimplifier<R>::Result SPxMainSM<R>::simplifyCols(SPxLPBase<R>& lp, b
                return this->INFEASIBLE;
             }
 
+            // bounds crossing only at rounding level describe a fixed variable
+            if(lp.lower(k) > lp.upper(k))
+            {
+               if(lp.lower(k) > oldLower)
+                  lp.changeLower(k, lp.upper(k));
+               else
+                  lp.changeUpper(k, lp.lower(k));
+            }
+
             std::shared_ptr<PostStep> ptr(new DoubletonEquationPS(lp, j, k, i, oldLower, oldUpper,
                                           this->_tolerances));
             m_hist.append(ptr);
